@@ -397,9 +397,13 @@ def o_C06(sc):
                 return 'C06 multivariate SPIKE-Sync profile is not the sum of the pair profiles'
             if 'interval' not in iv:
                 tc = sum(v[0] for v in acc.values()); tm = sum(v[1] for v in acc.values())
-                e = 1.0 if tm == 0 else tc / tm
-                if not feq(d, e):
-                    return 'C06 SPIKE-Sync value %r, total coincidences/multiplicity %r' % (d, e)
+            else:
+                # over a sub-interval: the events strictly inside it (also when it is the whole recording)
+                a_, b_ = iv['interval']
+                tc = sum(v[0] for t_, v in acc.items() if a_ < t_ < b_); tm = sum(v[1] for t_, v in acc.items() if a_ < t_ < b_)
+            e = 1.0 if tm == 0 else tc / tm
+            if not feq(d, e):
+                return 'C06 SPIKE-Sync value %r, total coincidences/multiplicity %r%s' % (d, e, '' if 'interval' not in iv else ' (events strictly inside %r)' % (iv['interval'],))
         matf = {'isi': spk.isi_distance_matrix, 'spike': spk.spike_distance_matrix, 'sync': spk.spike_sync_matrix}[meas]
         M = quiet(matf, L, **iv, **mt, **kw)
         diag = 1.0 if meas == 'sync' else 0.0
